@@ -1126,6 +1126,8 @@ class SymEx:
             ext = self.M.ext_name(fn.mod, f) if not (isinstance(f.value, ast.Name) and f.value.id in st.env) else None
             if ext is not None:
                 name = T.API_CLASS.get(ext, ext)
+                if name == 'COPY' and len(args) == 1 and not kws:
+                    return [(st, args[0])]
                 res = ('call', ('ext', name), tuple(args), kws)
                 x = st.ev(Ev('call', callee=['ext:' + name], args=dict(enumerate(args)), site=site, fn=fn.qn, how=how, layer=0,
                              result=res, node=e, recv=None, kwargs=dict(kwargs)))
@@ -1150,6 +1152,10 @@ class SymEx:
             return [(x, res)]
         r = self.ev(f, st)
         fv = r[0][1] if len(r) == 1 else ('havoc', 'callee', site)
+        if fv == ('ext', 'FLOAT') and len(args) == 1 and not kws and args[0][0] != 'str':
+            return [(st, args[0])]          # float(x) is the identity on numbers (over the reals)
+        if fv == ('ext', 'COPY') and len(args) == 1 and not kws:
+            return [(st, args[0])]
         if fv[0] == 'ext':
             res = ('call', fv, tuple(args), kws)
             name = fv[1]
